@@ -118,3 +118,18 @@ def src_stats(items, d=1):
                 n[k] += s[k]
             n["depth"] = max(n["depth"], s["depth"])
     return n
+
+
+NONASCII_VARS = ["café", "日本", "naïve_x", "ß", "x"]
+NONASCII_COMPS = ["café", "b", "日", "lïnk"]
+
+
+def gen_long_src(rng, nparts):
+    """a long interpolation: `nparts` alternating literal segments and variables (the view back-end nests tuples above 26 parts)"""
+    items = []
+    for i in range(nparts):
+        if i % 2 == 0:
+            items.append({"k": "text", "s": f"E{i // 2}:"})
+        else:
+            items.append({"k": "var", "name": f"v{i // 2}", "w1": "", "w2": "", "fmt": None})
+    return items
